@@ -227,7 +227,8 @@ class C18(Check):
             per = ['set_pos', 'set_vel', 'vel_none', 'set_id', 'set_resid', 'set_name']
             return [['rederive']] + [[e, s] for s in ('orig', 'copy') for e in per]
         per = ['move', 'move_to', 'rotate', 'set_pos', 'set_pos_shared', 'set_vel', 'vel_none', 'set_ids',
-               'view_pos_index', 'view_vel_index', 'view_pos_iter', 'view_vel_inplace', 'view_pos_inplace']
+               'view_pos_index', 'view_vel_index', 'view_pos_iter', 'view_vel_inplace', 'view_pos_inplace',
+               'atoms_copies']
         if kind == 'residue':
             per += ['set_resid', 'set_resname']
         else:
@@ -409,6 +410,15 @@ class C18(Check):
                         at.position += T['d']
                         mod.pos = mod.pos.copy()
                         mod.pos[i2] = mod.pos[i2] + T['d']
+                elif name == 'atoms_copies':
+                    # the documented `.atoms` property hands out COPIES of the atoms: assigning to them (position,
+                    # velocity, number) changes nothing in the object they were taken from
+                    got = obj.atoms
+                    got[i1].position = T['x3'].copy()
+                    got[0].position += T['d']
+                    if got[i2].velocity is not None:
+                        got[i2].velocity = T['v'].copy()
+                    got[i3].atomid = 4242
                 elif name == 'view_pos_iter':
                     for j, at in enumerate(obj):
                         if j == i2:
